@@ -75,6 +75,7 @@ def memberPrec : E → Prec
   | group _ => opMember
   | dot x _ => memberPrec x
   | index x _ => memberPrec x
+  | opt _ e => memberPrec e   -- the `Optional` flag does not change the stored `Prec`
   | _ => opCall
 
 /-- `exprPrec` of js/util.go -/
@@ -89,6 +90,7 @@ def prec : E → Prec
   | dot x _ => memberPrec x
   | index x _ => memberPrec x
   | group x => prec x
+  | opt _ e => prec e
 
 end E
 
